@@ -34,6 +34,15 @@ fn exact_3d(d: &mut Draw) -> Outcome {
     ensure_eq!(v3(b3.rotate_vector(v)), want, "basis3-rodrigues", "Basis3::from_axis_angle(a,t).rotate_vector(v)");
     ensure_eq!(v3(qt * v), want, "quaternion-rodrigues", "Quaternion::from_axis_angle(a,t) * v");
     ensure_eq!(m4.rm(), m3.rm().embed(4), "matrix4-embeds-matrix3", "Matrix4::from_axis_angle = Matrix3 embedded");
+    // the other ways of applying the same rotation, and of asking for it
+    {
+        use cgmath::Transform;
+        ensure_eq!(v3(Transform::<Point3<Q>>::transform_vector(&m4, v)), want, "matrix4-transform_vector", "Matrix4::from_axis_angle(a,t).transform_vector(v)");
+        ensure_eq!(v3(Transform::<Point3<Q>>::transform_vector(&m3, v)), want, "matrix3-transform_vector", "Matrix3::from_axis_angle(a,t).transform_vector(v)");
+        ensure_eq!(v3(qt.rotate_vector(v)), want, "quaternion-rotate_vector", "Quaternion::from_axis_angle(a,t).rotate_vector(v)");
+        ensure_eq!(v3(&m3 * &v), want, "matrix3-ref-mul", "&Matrix3 * &v");
+        ensure_eq!(v3(&qt * &v), want, "quaternion-ref-mul", "&Quaternion * &v");
+    }
     ensure_eq!(m3 * axis, axis, "fixes-axis", "R(a,t) a = a");
     ensure_eq!((m3 * m3.transpose()).rm(), RM::ident(3), "orthonormal", "R R^T = I");
     ensure_eq!(m3.determinant(), Q::ONE, "det+1", "det R = +1");
